@@ -157,6 +157,9 @@ func checkC09(c *Ctx) {
 	c.RunCases("gen", c.pick(6600, 150000), 0, func(cs *Case) {
 		r := cs.R
 		s := c09Base(r)
+		if chance(r, 8) {
+			s.Version = "v" + s.Version // (an accepted spelling: it reads back as written)
+		}
 		var field, class, val string
 		mayRefuse := false
 		var idx int
